@@ -90,8 +90,10 @@ Proof.
   - destruct i as [|i].
     + unfold crash_state_at. cbn [firstn run_ops fold_left nth_error crash_states].
       destruct o; try (now left).
-      right. apply in_or_app. left.
-      apply (in_map (fun pre => apply_op fs (Write t pre))). apply firstn_in_prefixes.
+      * right. apply in_or_app. left.
+        apply (in_map (fun pre => apply_op fs (Write t pre))). apply firstn_in_prefixes.
+      * right. apply in_or_app. left.
+        apply (in_map (fun pre => apply_op fs (WriteAt p off pre))). apply firstn_in_prefixes.
     + assert (E : crash_state_at fs (o :: ops) (S i) k = crash_state_at (apply_op fs o) ops i k) by reflexivity.
       rewrite E. cbn [crash_states]. right. apply in_or_app. right. apply IH.
 Qed.
@@ -419,4 +421,21 @@ Lemma tmp_sorts_before_records : forall suffix typ sk,
 Proof.
   intros suffix typ sk H. unfold tmp_name, record_name. rewrite tmp_prefix_lit. cbn [app bytes_leb].
   destruct (46 <? w8 (typ + fs_type_offset)) eqn:E; [reflexivity|lia].
+Qed.
+
+(* ---- an in-place overwrite (not what Put does; the shape of a seeded regression) --------- *)
+
+(* overwriting an existing record of the same length in place is not crash-atomic: a partial
+   write leaves new-prefix ++ old-suffix, which is neither record *)
+Lemma inplace_overwrite_not_atomic :
+  exists fs p old new fs',
+    alookup p fs = Some old /\ len old = len new
+    /\ In fs' (crash_states fs [OpenWrite p; WriteAt p 0 new; Close p])
+    /\ alookup p fs' = Some (take 1 new ++ drop 1 old)
+    /\ alookup p fs' <> Some old /\ alookup p fs' <> Some new.
+Proof.
+  exists [([64], [1; 1])], [64], [1; 1], [2; 2], [([64], [2; 1])].
+  split; [reflexivity|]. split; [reflexivity|]. split.
+  - cbn. right. right. right. now left.
+  - split; [reflexivity|]. split; cbn; discriminate.
 Qed.
